@@ -2,6 +2,9 @@ package compose
 
 import (
 	"context"
+	"fmt"
+	"io"
+	"strings"
 )
 
 // C05 / C06: interrupt + resume is equivalent to the uninterrupted run; interrupt points are honoured and reported.
@@ -381,14 +384,20 @@ func VerifC05WorkflowJoin() { c05WorkflowShape(1) }
 func VerifC06WorkflowJoin() { c05Mode = 6; c05WorkflowShape(1) }
 
 // ---- nested graph with its own interrupt points, inside a cycle of the outer graph:
-//      outer: START -> pre -> sub -> (branch: pre | END) ; inner: START -> p -> x -> END
+//
+//	outer: START -> pre -> sub -> (branch: pre | END) ; inner: START -> p -> x -> END
+type c05NS struct{ Visits int }
+
 func c05NestedLoop() {
 	ctx := context.Background()
 	vcfg("fifo", 1)
-	innerInt := vchoose("inner", 3) // 0 none, 1 before x, 2 after p
-	outerInt := vchoose("outer", 4) // 0 none, 1 before sub, 2 after sub, 3 after pre
+	_ = RegisterSerializableType[c05NS]("c05_ns")
+	levels := 2 + vchoose("levels", 2) // 3: the looping graph is itself a node of a top-level graph
+	innerInt := vchoose("inner", 3)    // 0 none, 1 before x, 2 after p
+	outerInt := vchoose("outer", 4)    // 0 none, 1 before sub, 2 after sub, 3 after pre
 	desc := []string{"", "inner-before:x ", "inner-after:p "}[innerInt] + []string{"", "before:sub", "after:sub", "after:pre"}[outerInt]
 	loops := vrange("loops", 0, 2) // how often the branch goes back to pre
+	visitsSeen := map[bool]int{}
 	build := func(log *vLog, interrupts bool, store CheckPointStore) (Runnable[map[string]any, map[string]any], error) {
 		evals := 0
 		inner := NewGraph[map[string]any, map[string]any]()
@@ -397,7 +406,7 @@ func c05NestedLoop() {
 		_ = inner.AddEdge(START, "p")
 		_ = inner.AddEdge("p", "x")
 		_ = inner.AddEdge("x", END)
-		outer := NewGraph[map[string]any, map[string]any]()
+		outer := NewGraph[map[string]any, map[string]any](WithGenLocalState(func(ctx context.Context) *c05NS { return &c05NS{} }))
 		_ = outer.AddLambdaNode("pre", c05Node("pre", log, nil))
 		var iopts []GraphCompileOption
 		if interrupts && innerInt == 1 {
@@ -406,10 +415,15 @@ func c05NestedLoop() {
 		if interrupts && innerInt == 2 {
 			iopts = append(iopts, WithInterruptAfterNodes([]string{"p"}))
 		}
-		_ = outer.AddGraphNode("sub", inner, WithGraphCompileOptions(iopts...))
+		_ = outer.AddGraphNode("sub", inner, WithGraphCompileOptions(iopts...),
+			WithStatePreHandler(func(ctx context.Context, in map[string]any, s *c05NS) (map[string]any, error) {
+				s.Visits++ // once per execution of the nested graph node, also across interrupt and resume
+				return in, nil
+			}))
 		_ = outer.AddEdge(START, "pre")
 		_ = outer.AddEdge("pre", "sub")
 		_ = outer.AddBranch("sub", NewGraphBranch(func(ctx context.Context, in map[string]any) (string, error) {
+			_ = ProcessState(ctx, func(ctx context.Context, s *c05NS) error { visitsSeen[interrupts] = s.Visits; return nil })
 			evals++
 			if evals <= loops {
 				return "pre", nil
@@ -417,8 +431,10 @@ func c05NestedLoop() {
 			return END, nil
 		}, map[string]bool{"pre": true, END: true}))
 		opts := []GraphCompileOption{WithMaxRunSteps(20)}
-		if interrupts {
+		if interrupts && levels == 2 {
 			opts = append(opts, WithCheckPointStore(store))
+		}
+		if interrupts {
 			switch outerInt {
 			case 1:
 				opts = append(opts, WithInterruptBeforeNodes([]string{"sub"}))
@@ -427,6 +443,17 @@ func c05NestedLoop() {
 			case 3:
 				opts = append(opts, WithInterruptAfterNodes([]string{"pre"}))
 			}
+		}
+		if levels == 3 {
+			top := NewGraph[map[string]any, map[string]any]()
+			_ = top.AddGraphNode("mid", outer, WithGraphCompileOptions(opts...))
+			_ = top.AddEdge(START, "mid")
+			_ = top.AddEdge("mid", END)
+			var topts []GraphCompileOption
+			if interrupts {
+				topts = append(topts, WithCheckPointStore(store))
+			}
+			return top.Compile(ctx, topts...)
 		}
 		return outer.Compile(ctx, opts...)
 	}
@@ -456,6 +483,9 @@ func c05NestedLoop() {
 			return
 		}
 		a6(store.sets == setsBefore+1, "nested: a checkpoint is written by the top-level run exactly when an interrupt error is returned ("+desc+")")
+		if levels == 3 && info.SubGraphs["mid"] != nil {
+			info = info.SubGraphs["mid"]
+		}
 		if len(info.SubGraphs) > 0 {
 			si := info.SubGraphs["sub"]
 			a6(si != nil && (len(si.BeforeNodes)+len(si.AfterNodes) > 0), "nested: the interrupt carries the nested graph's interrupt info ("+desc+")")
@@ -469,6 +499,7 @@ func c05NestedLoop() {
 	}
 	a5(finished, "nested: the run completes after resuming ("+desc+")")
 	a5(vMapEq(out, wantOut), "nested: interrupted and resumed run returns the output of the uninterrupted run ("+desc+")")
+	a5(visitsSeen[true] == visitsSeen[false], "nested: the pre-handler of the nested graph node ran as often as in the uninterrupted run; state carried unchanged across interrupt and resume ("+desc+")")
 	for _, n := range []string{"pre", "p", "x"} {
 		a, b := logI.of(n), logU.of(n)
 		a5(len(a) == len(b), "nested: node "+n+" is executed as often as in the uninterrupted run; a later execution of the nested graph starts fresh ("+desc+")")
@@ -566,3 +597,95 @@ func c05ParallelNested() {
 
 func VerifC05ParallelNested() { c05ParallelNested() }
 func VerifC06ParallelNested() { c05Mode = 6; c05ParallelNested() }
+
+// ---- a node that asks to be interrupted and re-run (once), with a state pre-handler that rebuilds its input
+type c05RS struct{ Items []string }
+
+func c05Rerun() {
+	ctx := context.Background()
+	vcfg("fifo", 1)
+	_ = RegisterSerializableType[c05RS]("c05_rs")
+	wrapped := vchoose("wrapped", 2) == 1
+	first := vchoose("firstParadigm", 2)
+	second := vchoose("secondParadigm", 2)
+	build := func(interrupting bool, store CheckPointStore, attempts *int, runsA *int) (Runnable[string, string], error) {
+		g := NewGraph[string, string](WithGenLocalState(func(ctx context.Context) *c05RS { return &c05RS{} }))
+		_ = g.AddLambdaNode("a", InvokableLambda(func(ctx context.Context, in string) (string, error) {
+			*runsA++
+			return in + "-prepared", nil
+		}))
+		_ = g.AddLambdaNode("r", InvokableLambda(func(ctx context.Context, in string) (string, error) {
+			*attempts++
+			if interrupting && *attempts == 1 {
+				if wrapped {
+					return "", fmt.Errorf("tool asks for a rerun: %w", InterruptAndRerun)
+				}
+				return "", InterruptAndRerun
+			}
+			return "[" + in + "]-done", nil
+		}), WithStatePreHandler(func(ctx context.Context, in string, s *c05RS) (string, error) {
+			if in != "" {
+				s.Items = append(s.Items, in)
+			}
+			return strings.Join(s.Items, "|"), nil
+		}))
+		_ = g.AddEdge(START, "a")
+		_ = g.AddEdge("a", "r")
+		_ = g.AddEdge("r", END)
+		var opts []GraphCompileOption
+		if store != nil {
+			opts = append(opts, WithCheckPointStore(store))
+		}
+		return g.Compile(ctx, opts...)
+	}
+	call := func(r Runnable[string, string], paradigm int, opts ...Option) (string, error) {
+		if paradigm == 0 {
+			return r.Invoke(ctx, "q", opts...)
+		}
+		sr, err := r.Stream(ctx, "q", opts...)
+		if err != nil {
+			return "", err
+		}
+		defer sr.Close()
+		out := ""
+		for i := 0; i < 8; i++ {
+			c, err := sr.Recv()
+			if err == io.EOF {
+				break
+			}
+			if err != nil {
+				return "", err
+			}
+			out += c
+		}
+		return out, nil
+	}
+	var at0, ra0 int
+	ru, err := build(false, nil, &at0, &ra0)
+	vassert(err == nil, "twin compiles")
+	want, werr := ru.Invoke(ctx, "q")
+	vassert(werr == nil, "uninterrupted run succeeds")
+	store := &vStore{m: map[string][]byte{}}
+	var at, ra int
+	ri, err := build(true, store, &at, &ra)
+	vassert(err == nil, "graph with a rerun node compiles")
+	_, e1 := call(ri, first, WithCheckPointID("cp"))
+	info, ok := ExtractInterruptInfo(e1)
+	a6(ok, "rerun: a node asking for interrupt-and-rerun (also through a wrapping error) yields an interrupt error with extractable info")
+	a5(ok, "rerun: the first call is interrupted")
+	if !ok {
+		return
+	}
+	a6(len(info.RerunNodes) == 1 && info.RerunNodes[0] == "r", "rerun: the interrupt names the node that asked for it in RerunNodes")
+	a6(store.sets == 1, "rerun: a checkpoint is written under the id when the rerun interrupt is returned")
+	st, _ := info.State.(*c05RS)
+	a6(st != nil && len(st.Items) == 1, "rerun: the interrupt info carries the state")
+	out, e2 := call(ri, second, WithCheckPointID("cp"))
+	a5(e2 == nil, "rerun: the resumed run completes")
+	a5(out == want, "rerun: the re-run node receives the input its pre-handler rebuilds from state, so the output equals the uninterrupted run")
+	a5(ra == 1, "rerun: nodes completed before the interrupt are not executed again")
+	a5(at == 2, "rerun: the node that asked for the interrupt runs once more after resume")
+}
+
+func VerifC05Rerun() { c05Rerun() }
+func VerifC06Rerun() { c05Mode = 6; c05Rerun() }
